@@ -51,6 +51,9 @@ type c23op struct {
 
 func (o c23op) String() string {
 	s := fmt.Sprintf("%s(%s/%d)", o.Kind, strings.Join(o.Keys, ","), o.M)
+	if len(o.Keys) == 1 && (o.Kind == "single" || o.Kind == "parse") {
+		s = fmt.Sprintf("%s(%s)", o.Kind, o.Keys[0])
+	}
 	if o.Bad {
 		s += "!"
 	}
